@@ -34,4 +34,198 @@ theorem unsanitize_sanitize (k : String) (h : noAt k = true) : unsanitize (sanit
   unfold unsanitize sanitize
   rw [String.toList_ofList, unsanGo_sanL _ (by simpa [noAt] using h), String.ofList_toList]
 
+/-! ### the parsers undo the formatters -/
+section parse
+variable [DecidableEq α]
+
+theorem mapM_generalParse_atoms (c : Utf8) (hc : c.RT) (col : List (MdVal α)) (h : col.all MdVal.isAtom = true) :
+    ((col.filterMap (scalarCell c)).map Row.scalar).mapM (generalParse c) = .ok col := by
+  induction col with
+  | nil => rfl
+  | cons x xs ih =>
+    simp only [List.all_cons, Bool.and_eq_true] at h
+    have ih' := ih h.2
+    cases x <;> simp [MdVal.isAtom] at h <;>
+      simp [scalarCell, List.mapM_cons, generalParse, ih', strCell, hc.rt, bind, Except.bind, pure, Except.pure]
+
+theorem listParse_padRow (c : Utf8) (hc : c.RT) (w : Nat) (l : List String) (hne : l ≠ [])
+    (hl : ∀ s ∈ l, s ≠ "") : listParse (α := α) c (.vec (padRow c w l)) = .ok (.list l) := by
+  simp only [listParse]
+  rw [filter_padRow c hc w l hl, mapM_cellStr c hc]
+  simp [bind, Except.bind, pure, Except.pure, hne]
+
+theorem mapM_listParse_lists (c : Utf8) (hc : c.RT) (w : Nat) (col : List (MdVal α))
+    (h : col.all goodList = true) :
+    ((col.map (listRow c w)).map Row.vec).mapM (listParse c) = .ok col := by
+  induction col with
+  | nil => rfl
+  | cons x xs ih =>
+    simp only [List.all_cons, Bool.and_eq_true] at h
+    obtain ⟨l, rfl, hne, hl⟩ := goodList_elems h.1
+    simp only [List.map_cons, List.mapM_cons, listRow, listParse_padRow c hc w l hne hl, ih h.2, bind, Except.bind,
+      pure, Except.pure]
+
+/-- reading a category of the domain back gives the column that was written -/
+theorem parse_fmtDs (c : Utf8) (hc : c.RT) (k : String) (col : List (MdVal α)) (hd : colDomain k col = true) :
+    ∃ rows, (fmtDs c k col).data.rowsOf = some rows ∧ rows.mapM (parserFor c k) = .ok col := by
+  unfold colDomain at hd
+  unfold fmtDs parserFor
+  by_cases hs : isSpecial k = true
+  · simp only [hs, if_true] at hd ⊢
+    exact ⟨_, rfl, mapM_listParse_lists c hc _ col hd⟩
+  · simp only [hs, if_false, Bool.false_eq_true] at hd ⊢
+    exact ⟨_, rfl, mapM_generalParse_atoms c hc col (atomDomain_atoms col hd)⟩
+
+end parse
+
+/-! ### `axis_load`: the metadata loop -/
+section load
+variable [DecidableEq α]
+
+/-- an entry as it is read back: the categories of the first ID, in dataset order -/
+def normEntry (keys : List String) (e : MdE α) : MdE α :=
+  keys.map (fun k => (k, (e.lookup k).getD .none))
+
+/-- what `axis_load` returns for the metadata of an axis of the domain -/
+def normMd : Option (List (MdE α)) → Option (List (MdE α))
+  | some (e0 :: es) => some ((e0 :: es).map (normEntry (keysOf e0)))
+  | _ => none
+
+theorem setKey_normEntry (done : List String) (k : String) (hk : k ∉ done) (e : MdE α) :
+    setKey (normEntry done e) k ((e.lookup k).getD .none) = normEntry (done ++ [k]) e := by
+  have hany : (normEntry done e).any (fun kv => kv.1 == k) = false := by
+    rw [List.any_eq_false]
+    intro kv hkv
+    obtain ⟨k', hk', rfl⟩ := List.mem_map.mp hkv
+    simp only [beq_iff_eq]
+    exact fun h => hk (h ▸ hk')
+  unfold setKey
+  simp only [hany, Bool.false_eq_true, if_false]
+  simp [normEntry]
+
+theorem zipUpd_norm (done : List String) (k : String) (hk : k ∉ done) (M : List (MdE α)) :
+    zipUpd k (M.map (normEntry done)) (colOf M k) = M.map (normEntry (done ++ [k])) := by
+  induction M with
+  | nil => rfl
+  | cons e es ih =>
+    simp only [List.map_cons, colOf, zipUpd, setKey_normEntry done k hk e] at ih ⊢
+    rw [ih]
+
+theorem loadCategory_fmtDs (c : Utf8) (hc : c.RT) (M : List (MdE α)) (done : List String) (k : String)
+    (hk : k ∉ done) (hat : noAt k = true) (hd : colDomain k (colOf M k) = true) :
+    loadCategory c (M.map (normEntry done)) (sanitize k, fmtDs c k (colOf M k)) =
+      .ok (M.map (normEntry (done ++ [k]))) := by
+  obtain ⟨rows, hrows, hparse⟩ := parse_fmtDs c hc k _ hd
+  simp only [loadCategory, unsanitize_sanitize k hat, hrows, hparse, bind, Except.bind, pure, Except.pure,
+    zipUpd_norm done k hk M]
+
+theorem foldlM_load (c : Utf8) (hc : c.RT) (M : List (MdE α)) (ks done : List String)
+    (hnd : (done ++ ks).Nodup) (hat : ∀ k ∈ ks, noAt k = true)
+    (hd : ∀ k ∈ ks, colDomain k (colOf M k) = true) :
+    (ks.map (fun k => (sanitize k, fmtDs c k (colOf M k)))).foldlM (loadCategory c) (M.map (normEntry done)) =
+      .ok (M.map (normEntry (done ++ ks))) := by
+  induction ks generalizing done with
+  | nil => simp [pure, Except.pure]
+  | cons k ks ih =>
+    have hk : k ∉ done := by
+      intro h
+      have := List.nodup_append.mp hnd
+      exact this.2.2 k h k List.mem_cons_self rfl
+    rw [List.map_cons, List.foldlM_cons,
+      loadCategory_fmtDs c hc M done k hk (hat k List.mem_cons_self) (hd k List.mem_cons_self)]
+    simp only [bind, Except.bind]
+    have := ih (done ++ [k]) (by simpa [List.append_assoc] using hnd)
+      (fun k' hk' => hat k' (List.mem_cons_of_mem _ hk')) (fun k' hk' => hd k' (List.mem_cons_of_mem _ hk'))
+    simpa [List.append_assoc] using this
+
+theorem replicate_norm (M : List (MdE α)) : List.replicate M.length ([] : MdE α) = M.map (normEntry []) := by
+  induction M with
+  | nil => rfl
+  | cons e es ih => simp [List.replicate_succ, ih, normEntry]
+
+/-- the metadata loop of `axis_load` on a written metadata group -/
+theorem loadMd (c : Utf8) (hc : c.RT) (md : Option (List (MdE α))) (n : Nat)
+    (hlen : ∀ m, md = some m → m.length = n) (hdom : mdDomain md = true)
+    (hat : ∀ e0 es, md = some (e0 :: es) → ∀ k ∈ keysOf e0, noAt k = true) :
+    ∃ l, (mdTree c md).foldlM (loadCategory c) (List.replicate n []) = .ok l ∧
+      (if l.any (fun e => !e.isEmpty) then some l else none) = normMd md := by
+  match md with
+  | none => exact ⟨_, rfl, by simp [normMd]⟩
+  | some [] => simp [mdDomain] at hdom
+  | some (e0 :: es) =>
+    have hf := mdDomain_facts e0 es hdom
+    have hn := hlen _ rfl
+    refine ⟨(e0 :: es).map (normEntry (keysOf e0)), ?_, ?_⟩
+    · rw [← hn, replicate_norm]
+      have := foldlM_load c hc (e0 :: es) (keysOf e0) [] (by simpa using hf.keysNodup) (hat e0 es rfl) hf.cols
+      simpa [mdTree] using this
+    · have hne : keysOf e0 ≠ [] := hf.keysNe
+      cases hk : keysOf e0 with
+      | nil => exact absurd hk hne
+      | cons k ks => simp [normMd, hk, normEntry]
+
+end load
+
+/-! ### `axis_load`, the matrix load, the whole reader on a written tree -/
+section reader
+variable [DecidableEq α]
+
+/-- `datetime.fromisoformat(d.isoformat()) == d` -/
+def DateC.RT (dc : DateC δ) : Prop := ∀ d, dc.parse (dc.iso d) = some d
+
+/-- header fields of the domain: type and id absent or non-empty text; group metadata is a dict -/
+structure HeaderOK (t : Src α) : Prop where
+  typeNe : t.ttype ≠ some ""
+  idNe : t.tableId ≠ some ""
+  ogmdKeys : (t.ogmd.map (·.1)).Nodup
+  sgmdKeys : (t.sgmd.map (·.1)).Nodup
+
+/-- category names of the domain contain no '@' -/
+def keysNoAt (md : Option (List (MdE α))) : Prop :=
+  ∀ e0 es, md = some (e0 :: es) → ∀ k ∈ keysOf e0, noAt k = true
+
+def gmdLoaded (g : List (String × String × String)) : List (String × Option String) :=
+  g.map (fun kv => (kv.1, some kv.2.2))
+
+theorem mapM_idOfCell (c : Utf8) (hc : c.RT) (ids : List String) :
+    (ids.map (strCell (α := α) c)).mapM (idOfCell c) = .ok ids :=
+  mapM_map_ok _ _ _ (fun s => hc.rt s)
+
+theorem mapM_map_ok2 {β γ ε : Type} (f : γ → Except Err ε) (g : β → γ) (h : β → ε) (l : List β)
+    (hh : ∀ x, f (g x) = .ok (h x)) : (l.map g).mapM f = .ok (l.map h) := by
+  induction l with
+  | nil => rfl
+  | cons x xs ih => rw [List.map_cons, List.mapM_cons, hh x, ih]; rfl
+
+theorem mapM_loadGmd (c : Utf8) (hc : c.RT) (g : List (String × String × String)) :
+    (gmdDsets (α := α) c g).mapM (loadGmd c) = .ok (gmdLoaded g) := by
+  unfold gmdDsets gmdLoaded
+  apply mapM_map_ok2
+  intro x
+  simp only [loadGmd, strCell, hc.rt, bind, Except.bind, pure, Except.pure]
+
+theorem axisLoad_axTree (c : Utf8) (hc : c.RT) (ids : List Id) (md : Option (List (MdE α)))
+    (gmd : List (String × String × String)) (cs : CS α)
+    (hlen : ∀ m, md = some m → m.length = ids.length) (hdom : mdDomain md = true) (hat : keysNoAt md) :
+    axisLoad c (axTree c ids md gmd cs) = .ok (ids, normMd md, gmdLoaded gmd) := by
+  obtain ⟨l, hl, hn⟩ := loadMd c hc md ids.length hlen hdom hat
+  unfold axisLoad
+  simp only [axTree, reqE, strDs, mapM_idOfCell c hc, hl, hn, mapM_loadGmd c hc, bind, Except.bind, pure, Except.pure]
+
+theorem mapM_loadNat (l : List Nat) : (l.map (natCell (α := α))).mapM loadNat = .ok l :=
+  mapM_map_ok _ _ _ (fun n => by simp [loadNat, natCell])
+
+theorem loadView_matTree (cs : CS α) (major minor : Nat) (hM : cs.nMajor = major) (hm : cs.nMinor = minor) :
+    loadView major minor (some (matTree cs)) = .ok cs := by
+  subst hM hm
+  simp only [loadView, reqE, matTree, mapM_cellVal, mapM_loadNat, bind, Except.bind, pure, Except.pure]
+
+/-- what a loader must hand back for a written table (the placeholders spelled out) -/
+def expected (t : Src α) (genBy : String) (d : δ) : Loaded α δ :=
+  { obs := t.obs, samp := t.samp, rows := t.rows, omd := normMd t.omd, smd := normMd t.smd,
+    ttype := t.ttype, tableId := idAttr t.tableId, generatedBy := genBy, createDate := .date d,
+    ogmd := gmdLoaded t.ogmd, sgmd := gmdLoaded t.sgmd }
+
+end reader
+
 end Biom.Hdf5
